@@ -440,6 +440,17 @@ impl<T: Float + std::ops::AddAssign> Categorical<T> {
     }
 }
 
+#[cfg(feature = "verif")]
+impl<T: Float + std::ops::AddAssign> Categorical<T> {
+    /// Verification hook: like [`Categorical::new`] but with a caller-supplied generator, so the
+    /// uniform variate consumed by `sample` can be chosen.
+    pub fn with_rng(probs: Vec<T>, rng: SmallRng) -> Self {
+        let mut c = Self::new(probs);
+        c.rng = rng;
+        c
+    }
+}
+
 impl<T: Float + std::ops::AddAssign> Discrete<T> for Categorical<T>
 where
     StandardUniform: rand::distr::Distribution<T>,
